@@ -78,7 +78,7 @@ impl Scenario for HmacSplit {
         DIGESTS.len() as u64 * 7 * 6
     }
     fn real_vs_stub(&self) -> &'static str {
-        "real: hmac::Hmac<D> over all 18 legacy digest objects (new, input, result, raw_result, output_bytes), Digest::block_size/output_bytes, hashing::* one-call functions as H; stub: scheduler/PRNG, RFC 2104 composition and the table of specified block sizes (harness side)"
+        "real: hmac::Hmac<D> over all 18 legacy digest objects (new, input, result, raw_result, output_bytes), Digest::block_size/output_bytes; stub: scheduler/PRNG, RFC 2104 composition over independent implementations of the 18 standard digests (model::digests) and the table of specified block sizes (harness side)"
     }
     fn cover_rule(&self) -> &'static str {
         "(digest, key-length class {0,1,B-1,B,B+1,2B+1,random}, fragment class relative to the digest's block after the ipad block)"
